@@ -29,7 +29,7 @@ import (
 )
 
 var st = stat.New("C15",
-	"Case = 2..4 scripted servers (unweighted or all statically weighted) behind a registry-backed proxy, 4..40 steps from {call x1..8, advance clock by 1|2|3|6|8|25|31|40|61|90 s, status check, flip a server between ok and failing, registry refresh after the registry's answer changed in an attribute that is not part of an endpoint's identity (QoS)}. Model per endpoint: failures/successes since (re)instatement, consecutive failures, model time since last success / since the failure streak began / since the last probe, observed rotation membership. Assertions (threshold assertions only when the model time is >= 2 s away from the threshold): an endpoint leaves rotation only with >= 2 failures since it was (re)instated (never with 0); >= 5 consecutive failures over >= 5 s with another endpoint active => out of rotation after the next status check; an endpoint that is out of rotation receives calls only as probes: never without a status check since it left rotation / since the previous probe, and two probes only if >= 30 s can lie between the status checks that scheduled them; a successful probe puts it back (it is listed again, and an in-rotation endpoint whose server answers receives ordinary traffic within two full cycles, also with static weights), a failed probe leaves it out; with every endpoint out of rotation calls are still attempted on some endpoint. Non-trivial = history with block -> >= 30 s -> probe -> reinstatement, or all endpoints blocked. Distinct = distinct case JSON.",
+	"Case = 2..4 scripted servers (unweighted or all statically weighted) behind a registry-backed proxy, 4..40 steps from {call x1..8, advance clock by 1|2|3|6|8|25|31|40|61|90 s, status check, flip a server between ok and failing (silent) or between up and down (connections closed, dials refused), registry refresh after the registry's answer changed in an attribute that is not part of an endpoint's identity (QoS)}. Model per endpoint: failures/successes since (re)instatement, consecutive failures, model time since last success / since the failure streak began / since the last probe, observed rotation membership. Assertions (threshold assertions only when the model time is >= 2 s away from the threshold): an endpoint leaves rotation only with >= 2 failures since it was (re)instated (never with 0); >= 5 consecutive failures over >= 5 s with another endpoint active => out of rotation after the next status check; an endpoint that is out of rotation receives calls only as probes: never without a status check since it left rotation / since the previous probe, and two probes only if >= 30 s can lie between the status checks that scheduled them; a successful probe puts it back (it is listed again, and an in-rotation endpoint whose server answers receives ordinary traffic within two full cycles, also with static weights), a failed probe leaves it out; with every endpoint out of rotation calls are still attempted on some endpoint. Non-trivial = history with block -> >= 30 s -> probe -> reinstatement, or all endpoints blocked. Distinct = distinct case JSON.",
 	"clock advances shift the adapters' timestamps through an overlay accessor; real elapsed time (< 3 s per case) is added to the model with second granularity margins",
 	"the process-wide background status and refresh tickers are disabled (intervals of ~11 days set before the first proxy is created) so that status checks happen only where the history says")
 
@@ -82,6 +82,16 @@ func draw(rt *rapid.T) Case {
 			add(Step{Op: "call", N: c.NServers})
 		}
 		add(Step{Op: "call", N: rapid.IntRange(0, 6).Draw(rt, "warm")})
+		if rapid.IntRange(0, 2).Draw(rt, "singleRefusal") == 0 {
+			// one refused dial on a young endpoint, then a status check: a single failure
+			// must never take an endpoint out of rotation
+			other := rapid.IntRange(0, c.NServers-1).Draw(rt, "refusedTarget")
+			add(Step{Op: "flip", Target: other, N: 1})
+			add(Step{Op: "call", N: c.NServers})
+			add(Step{Op: "flip", Target: other, N: 1})
+			add(Step{Op: "check"})
+			add(Step{Op: "call", N: c.NServers})
+		}
 		add(Step{Op: "flip", Target: tgt})
 		for k := rapid.IntRange(5, 8).Draw(rt, "failRounds"); k > 0; k-- {
 			add(Step{Op: "call", N: c.NServers})
@@ -133,6 +143,9 @@ func draw(rt *rapid.T) Case {
 			s.Secs = rapid.SampledFrom([]int{1, 2, 3, 6, 8, 25, 31, 40, 61, 90}).Draw(rt, "secs")
 		case "flip", "refresh":
 			s.Target = rapid.IntRange(0, c.NServers-1).Draw(rt, "target")
+			if op == "flip" && rapid.IntRange(0, 2).Draw(rt, "downKind") == 0 {
+				s.N = 1 // down/up instead of silent/answering
+			}
 		}
 		c.Steps = append(c.Steps, s)
 	}
@@ -158,6 +171,7 @@ func (r *fakeRegistry) QueryServantBySet(ctx context.Context, id, set string) ([
 var (
 	servers  []*peer.Server
 	modes    []int32 // 0 ok, 1 failing (silent)
+	down     [4]bool // server i is not listening (dials are refused)
 	setupOne sync.Once
 	objSeq   int64
 )
@@ -203,6 +217,14 @@ type epModel struct {
 
 func run(c Case) *stat.Failure {
 	reg := &fakeRegistry{}
+	for i := range down {
+		if down[i] {
+			if err := servers[i].Relisten(); err != nil {
+				return stat.Failf("harness-failure", "relisten: %v", err)
+			}
+			down[i] = false
+		}
+	}
 	for i := 0; i < c.NServers; i++ {
 		atomic.StoreInt32(&modes[i], 0)
 		ef := endpointf.EndpointF{Host: servers[i].Host, Port: int32(servers[i].Port), Timeout: 3000, Istcp: 1, WeightType: 0, Weight: 100}
@@ -264,6 +286,12 @@ func run(c Case) *stat.Failure {
 		ctx, cancel := context.WithTimeout(context.Background(), 40*time.Millisecond)
 		defer cancel()
 		resp := &requestf.ResponsePacket{}
+		sendsBefore := map[string]int32{}
+		for _, a := range sp.VerifAdapters() {
+			h, _ := a.VerifHost()
+			_, _, sc, _ := a.VerifCounters()
+			sendsBefore[h] = sc
+		}
 		err = sp.TarsInvoke(ctx, 0, "echo", buf, nil, nil, resp)
 		server = -1
 		for i := 0; i < c.NServers; i++ {
@@ -271,6 +299,18 @@ func run(c Case) *stat.Failure {
 			for j := len(reqs) - 1; j >= 0 && j >= len(reqs)-4; j-- {
 				if len(reqs[j].Buffer) >= 4 && binary.BigEndian.Uint32(reqs[j].Buffer) == tok {
 					server = i
+				}
+			}
+		}
+		if server < 0 {
+			// no server saw the request (refused dial): the endpoint the call was attempted on is
+			// the one whose send counter moved
+			for _, a := range sp.VerifAdapters() {
+				h, _ := a.VerifHost()
+				if _, _, sc, _ := a.VerifCounters(); sc != sendsBefore[h] {
+					if i, ok := hostIdx[h]; ok {
+						server = i
+					}
 				}
 			}
 		}
@@ -282,7 +322,21 @@ func run(c Case) *stat.Failure {
 		where := fmt.Sprintf("step %d (%s)", si, stp.Op)
 		switch stp.Op {
 		case "flip":
-			atomic.StoreInt32(&modes[stp.Target], 1-atomic.LoadInt32(&modes[stp.Target]))
+			if stp.N == 1 {
+				// the server goes down / comes back: connections are closed, dials are refused
+				if down[stp.Target] {
+					if err := servers[stp.Target].Relisten(); err != nil {
+						return stat.Failf("harness-failure", "relisten: %v", err)
+					}
+				} else {
+					servers[stp.Target].StopListening()
+					servers[stp.Target].CloseAllConns()
+				}
+				down[stp.Target] = !down[stp.Target]
+				st.Class("server-down-or-up", 1)
+			} else {
+				atomic.StoreInt32(&modes[stp.Target], 1-atomic.LoadInt32(&modes[stp.Target]))
+			}
 		case "refresh":
 			// the registry now publishes a different QoS value for one endpoint (same hosts,
 			// ports, timeouts: every endpoint keeps its identity); the refresh must leave
@@ -360,7 +414,7 @@ func run(c Case) *stat.Failure {
 			hit := map[int]int{}
 			allOK := true
 			for i := range m {
-				if atomic.LoadInt32(&modes[i]) != 0 {
+				if atomic.LoadInt32(&modes[i]) != 0 || down[i] {
 					allOK = false // failing servers make calls slow and change membership: skip
 				}
 			}
